@@ -67,7 +67,7 @@ func genScalar(t *rapid.T, label string) any {
 	case 2:
 		return rapid.SampledFrom([]string{"x", "", "abc", "12", "3.5", "-7", "1e2", "nope", "a b"}).Draw(t, label+".str")
 	case 3:
-		return rapid.SampledFrom([]string{"12", "3.5", "0", "7x"}).Draw(t, label+".numstr")
+		return rapid.SampledFrom([]string{"12", "3.5", "0", "7x", "010", "0755", "000123", "-042", "007", "0x1F", "0b101", "0o17", "1e3", ".5", "5."}).Draw(t, label+".numstr")
 	case 4:
 		return rapid.Bool().Draw(t, label+".bool")
 	case 5:
@@ -475,7 +475,34 @@ func genMultiDimRaw(t *rapid.T, doc map[string]any) string {
 
 func genC09(t *rapid.T) any {
 	c := &C09Case{Doc: genSelDoc(t, "doc"), Doc2: genSelDoc(t, "doc2")}
-	switch rapid.IntRange(0, 5).Draw(t, "mode") {
+	switch rapid.IntRange(0, 6).Draw(t, "mode") {
+	case 6:
+		// pipe-focused: records of scalars (numeric texts of every spelling, strings, numbers, booleans)
+		// reshaped and converted through {k|type, ...}
+		mkrec := func(label string) map[string]any {
+			rec := map[string]any{}
+			for _, k := range []string{"a", "b", "c", "n", "id"} {
+				if rapid.IntRange(0, 4).Draw(t, label+"."+k+".present") != 0 {
+					rec[k] = genScalar(t, label+"."+k)
+					if rapid.Bool().Draw(t, label+"."+k+".numtext") {
+						rec[k] = rapid.SampledFrom([]string{"12", "3.5", "0", "010", "0755", "000123", "-042", "007", "1e3", ".5", "5.", "-0", "00", "08", "0x1F", "0b101", "0o17", "1_000", "7x", "", " 5"}).Draw(t, label+"."+k+".text")
+					}
+				}
+			}
+			return rec
+		}
+		c.Doc["rec"] = mkrec("rec")
+		c.Doc["recs"] = []any{mkrec("recs0"), mkrec("recs1")}
+		invalid := false
+		sel := &selref.Selector{Parts: []selref.Part{{}}}
+		if rapid.Bool().Draw(t, "pf.single") {
+			sel.Parts[0].Steps = append(sel.Parts[0].Steps, selref.Step{K: "key", Key: "rec"}, genPipe(t, c.Doc["rec"].(map[string]any), &invalid, "pf.pipe"))
+		} else {
+			i := rapid.IntRange(0, 1).Draw(t, "pf.i")
+			sel.Parts[0].Steps = append(sel.Parts[0].Steps, selref.Step{K: "key", Key: "recs"}, selref.Step{K: "idx", Dims: []selref.Dim{{K: "i", I: i}}}, genPipe(t, c.Doc["recs"].([]any)[i].(map[string]any), &invalid, "pf.pipe"))
+		}
+		c.Sel = sel
+		return c
 	case 0:
 		c.Raw = genRawSelector(t, c.Doc)
 		return c
